@@ -26,6 +26,25 @@ CONFIGS = {
     'sw-2x1-nosave': ([5, 4, 3], 'swapper', [2, 1], None, False, 'c'),
     'h3-2x3-save': ([5, 4, 7, 6], 'handler', [2, 3], [[0, 3, 1, 2], [0, 2, 1, 3], [3, 2, 1, 0]], True, 'f'),
 }
+# layouts that differ by a cyclic reordering of undistributed dimensions (the local transposition is not its own inverse)
+CONFIGS['h4d-cyclic-save'] = ([4, 3, 3, 3], 'handler', [2], [[0, 1, 2, 3], [0, 2, 3, 1], [0, 3, 1, 2], [1, 0, 2, 3]], True, 'f')
+CONFIGS['h4d-cyclic-uneven-save-c'] = ([5, 2, 3, 4], 'handler', [3], [[0, 1, 2, 3], [0, 2, 3, 1], [0, 3, 1, 2], [3, 2, 1, 0]], True, 'c')
+
+
+def _random_configs():
+    # seeded random handler configurations (the workers rebuild the same ones from VERIF_SEED)
+    import os
+    import gens
+    rng = random.Random(int(os.environ.get('VERIF_SEED', '20260925')) * 7 + 1)
+    out = {}
+    for k in range(6):
+        N, nprocs, layouts = gens.handler_config(rng, max_ranks=4, max_extent=5, dmin=3, dmax=4, nlayouts=rng.randint(3, 4))
+        out['rnd%d' % k] = (N, 'handler', nprocs, layouts, rng.random() < 0.75, rng.choice('fc'))
+    return out
+
+
+CONFIGS.update(_random_configs())
+
 SW_LAYOUTS = [('v_parallel_2d', [0, 2, 1]), ('mode_solve', [1, 2, 0]), ('v_parallel_1d', [0, 2, 1]), ('poloidal', [2, 1, 0])]
 
 
